@@ -383,6 +383,9 @@ class BinaryZlibFile(io.BufferedIOBase):
         # return any data. In this case, try again after reading another block.
         while self._buffer_offset == len(self._buffer):
             try:
+                if self._decompressor.eof:
+                    # End of the compressed stream: ignore any trailing data.
+                    raise EOFError
                 rawblock = self._decompressor.unused_data or self._fp.read(_BUFFER_SIZE)
                 if not rawblock:
                     raise EOFError
